@@ -26,6 +26,10 @@ func init() {
 			ruleListUnderLock(c, "C01.R8")
 			c.Rule("C01.R9", "owner keys are compared for equality; prefix queries only with pool prefixes", 10)
 			ruleExactKeyQueries(c, "C01.R9")
+			c.Rule("C01.R10", "the pod lock key is (name, namespace) at every site", 5)
+			rulePodLockKey(c, "C01.R10")
+			c.Rule("C01.R11", "table entries move only through the paired helpers (an ip is in exactly one table)", 6)
+			ruleTablesOnlyThroughHelpers(c, "C01.R11")
 			c.Rule("C01.R7", "release events are queued only for pods that are gone or finished", 4)
 			ruleReleaseEventsQueued(c, "C01.R7")
 		}})
@@ -56,6 +60,10 @@ func init() {
 			ruleExactKeyQueries(c, "C04.R9")
 			c.Rule("C04.R10", "bind waits for the old incarnation's delete event (UID guard)", 3)
 			ruleUIDGuard(c, "C04.R10")
+			c.Rule("C04.R11", "a store Create conflict is an error (never an upsert over a live pod's object)", 5)
+			ruleStoreErrorsPropagate(c, "C04.R11")
+			c.Rule("C04.R12", "the pod lock key is (name, namespace) at every site", 5)
+			rulePodLockKey(c, "C04.R12")
 			c.Rule("C04.R7", "IPAM mutators under the pod lock (unbind, syncPodIP, resync, release)", 7)
 			rulePodLockAtMutators(c, "C04.R7")
 		}})
@@ -76,6 +84,9 @@ func init() {
 			ruleBindAfterAllocate(c, "C10.R3")
 			c.Rule("C10.R5", "the node recorded for an ip is refreshed by every successful bind", 2)
 			ruleUpdateAttrAlwaysWrites(c, "C10.R5")
+			c.Rule("C10.R6", "free / reserve after a pod is gone is entered only from the unassign-first paths; scheduling paths never release", 9)
+			ruleWhoMayUnbind(c, "C10.R6")
+			ruleSchedulingNeverReleases(c, "C10.R6")
 			c.Rule("C10.R4", "request fields come from the re-read record", 4)
 			ruleReleasers(c, "C10.R4", "fresh")
 		}})
@@ -148,6 +159,9 @@ func init() {
 			ruleStickyLookup(c, "C06.R3")
 			c.Rule("C06.R6", "a pool's node-subnet set is read-only after ConfigurePool; hand-outs are copies", 2)
 			rulePoolSetsImmutable(c, "C06.R6")
+			c.Rule("C06.R7", "a reserved ip leaves the free table (paired moves); reservation handlers guarded", 12)
+			ruleTablesOnlyThroughHelpers(c, "C06.R7")
+			ruleReservationHandlers(c, "C06.R7")
 			c.Rule("C06.R5", "reload attaches an allocation to the pool whose ranges contain it", 2)
 			ruleReloadDeletesOnlyForeign(c, "C06.R5")
 			ruleReloadPoolMatch(c, "C06.R5")
